@@ -13,7 +13,7 @@ def run(rep, scratch, tier, seed, replay=None):
     rng = random.Random(seed)
     # ---- (a) ReplacePlaceholders
     cases = []
-    for _ in range(1500 if tier == "quick" else 15000):
+    for _ in range(5000 if tier == "quick" else 40000):
         t = text.rand_tree(rng, rng.choice([0, 1, 2, 3, 5]), ph_rate=0.6, max_arity=4)
         # small placeholder numbers so that "too few / exact / too many" all occur
         def small(t):
